@@ -397,11 +397,12 @@ def extra_checks(tier):
     vs = []
     n = 0
     # connecting with credentials of a different identity is refused
-    for oip in (False, True):
+    for oip, live in ((False, False), (True, False), (False, True), (True, True)):
         p = MockProvider(oip, True)
         p.connect({"k": "v"})
         first = p.connection_id
-        p.disconnect()
+        if not live:            # (live: the re-login with the wrong account happens on a connected provider)
+            p.disconnect()
         orig = p.connect_impl
         p.connect_impl = lambda creds: "someone-else"
         n += 1
@@ -413,7 +414,7 @@ def extra_checks(tier):
         except Exception as e:
             vs.append(viol("identity", "wrong-error:" + type(e).__name__, {}))
         if p.connected:
-            vs.append(viol("identity", "still-connected", {}))
+            vs.append(viol("identity", "still-connected" + ("-live" if live else ""), {}))
         p.connect_impl = orig
     # a provider instance cannot be used by two syncs
     from cloudsync import CloudSync
